@@ -24,7 +24,8 @@ What is decided (all structurally, nothing under /repo is imported or run):
 * readonly       sa.effects: `__call__`, `search`, the resolver, `order_by` (and its lambdas) and every `Task` property
                  getter reachable through `getattr` write nothing (fresh objects excepted).
 * bulk_assign    `__setattr__` with a public key applies `t.__setattr__(key, value)` / `setattr(t, key, value)` to every
-                 element of `self._list`, unconditionally, no early loop exit.
+                 element of `self._list`, unconditionally, no early loop exit; `{K(t): t for t in _list}.values()` reaches
+                 every task only when K is `id(t)` (keyed by `t.id` / `t.name` it is refuted: one task per key, C18-r42).
 * remove_all     `_TaskList.remove_all` and `WBS.remove_all`: the match list is `self(key, **kwargs)` resp.
                  `self.tasks(key, **kwargs)` (`WBS.tasks` = all tasks below the root); every match is removed (through
                  `self.remove` resp. `self.__remove(t, self.__root)`), unconditionally; every return yields the whole match
@@ -32,6 +33,15 @@ What is decided (all structurally, nothing under /repo is imported or run):
                  node's children and recurses into every child.  `__remove` may hand the walk to a private helper of the class
                  (`return self.__remove_below(task, current)` behind the None pre-check, parameters in any order, recursion
                  through either function); an iterative walk (`while stack:`) is UNDECIDED.
+                 The walker is found from the call site: any package function / method called with the hidden root and one
+                 match (`self.__remove(t, self.__root)`, a static method, a module-level `_remove_from_subtree(root, t)`), or
+                 through the public `WBS.remove`.  A walker that receives ALL matches at once (`self.__prune({id(t) for t in
+                 matches}, self.__root)`) is read in bulk mode: the argument must hold every match, the walker must rebuild
+                 `current.children` without the doomed tasks and must visit EVERY remaining child - `any(<generator>)`,
+                 `x or <descent>`, `return`/`break` in the child loop are refuted (C18-r43).  A remove_all whose body is
+                 `return helper(<query>, <callback>)` is analysed with the helper's body spliced in (lambda and bound-method
+                 callbacks beta-reduced); "no removal call" is refuted only when the function calls nothing the rule did not
+                 follow.
 * remove_each    remove_all calls `self.remove(t)` once per match on ONE list object.  Every concrete `remove`
                  (_ChildrenList / _PredecessorsList / _SuccessorsList) rebuilds the owner's list and writes it through the owner's
                  property setter: the source of the rebuild must be current at every call - the owner's property read again
@@ -549,6 +559,19 @@ def _whole(e: ast.AST, is_base, order_matters=False):
         if r == 'whole' and not (e.slice.lower is None and e.slice.upper is None and e.slice.step is None):
             return ('filtered', f"slice `{src(e)}` leaves elements out")
         return r
+    if isinstance(e, ast.Call) and isinstance(e.func, ast.Attribute) and e.func.attr == 'values' and not e.args and not e.keywords \
+            and isinstance(e.func.value, ast.DictComp) and len(e.func.value.generators) == 1:
+        # {K(t): t for t in X}.values(): one task per key
+        dc = e.func.value
+        gen = dc.generators[0]
+        if isinstance(gen.target, ast.Name) and isinstance(dc.value, ast.Name) and dc.value.id == gen.target.id:
+            r = _whole(gen.iter, is_base, order_matters)
+            if r == 'whole' and gen.ifs:
+                return ('filtered', "comprehension filter `" + ' and '.join(src(c) for c in gen.ifs) + "`")
+            if r == 'whole' and not match(f"id({gen.target.id})", dc.key):
+                return ('filtered', f"the dict keyed by `{src(dc.key)}` keeps one task per key: of several tasks with the same "
+                                    f"`{src(dc.key)}` only the last one is left")
+            return r
     parts = facts.comp_parts(e) if isinstance(e, (ast.ListComp, ast.GeneratorExp)) else None
     if parts:
         elt, tgt, it, ifs = parts
@@ -704,7 +727,8 @@ def _inline_predicates(prog, f, cond: ast.AST, keep=()) -> ast.AST:
                 finally:
                     self.depth -= 1
             return node
-    return ast.fix_missing_locations(T().visit(copy.deepcopy(cond)))
+    # (the Expander may already have folded a nested predicate into `A if c else B`: simplify that form as well)
+    return ast.fix_missing_locations(_bool_simplify(T().visit(copy.deepcopy(cond))))
 
 
 def _filter_atoms(c: ast.AST) -> List[Tuple[ast.AST, bool]]:
@@ -721,6 +745,95 @@ def _filter_atoms(c: ast.AST) -> List[Tuple[ast.AST, bool]]:
         else:
             out.append((at, pol))
     return out
+
+
+def _delegated_body(prog, f):
+    """`def f(..): return g(<args>)` with g a module-level package function (the shared body of several operations, possibly
+    taking callbacks): a synthetic copy of f with g's body spliced in - parameters bound by leading assignments, lambda
+    arguments beta-reduced at their call sites - so that the rules read the operation as if it were written in place.
+    Anything not understood -> f itself."""
+    from sa.model import Func
+    stmts = [st for st in f.body if not (isinstance(st, ast.Expr) and isinstance(st.value, ast.Constant))]
+    if len(stmts) != 1 or not isinstance(stmts[0], ast.Return) or not isinstance(stmts[0].value, ast.Call):
+        return f
+    call = stmts[0].value
+    if not isinstance(call.func, ast.Name) or any(isinstance(x, ast.Starred) for x in call.args) or any(k.arg is None for k in call.keywords):
+        return f
+    g = prog.module_func(f.module.name, call.func.id)
+    if g is None and call.func.id in f.module.imports:
+        origin = prog.resolve_import(f.module, call.func.id)
+        g = prog.funcs.get(origin) if origin else None
+    if g is None or g.kind != 'function' or not isinstance(g.node, ast.FunctionDef):
+        return f
+    a = g.node.args
+    if a.vararg or a.kwarg or a.kwonlyargs or a.posonlyargs:
+        return f
+    if any(isinstance(n, ast.Call) and isinstance(n.func, ast.Name) and n.func.id == g.name for n in ast.walk(g.node)):
+        return f                     # recursive
+    if any(isinstance(n, (ast.FunctionDef, ast.Lambda, ast.Yield, ast.YieldFrom, ast.Global, ast.Nonlocal)) for st in g.node.body for n in ast.walk(st)):
+        return f
+    bound = facts.bound_args(call, g, drop_self=False)
+    if len(bound) != len(g.params) or any(b is None for b in bound) or len(call.args) + len(call.keywords) != len(g.params):
+        return f
+    stored = {n.id for st in g.node.body for n in ast.walk(st) if isinstance(n, ast.Name) and isinstance(n.ctx, ast.Store)}
+    arg_names = set()
+    for b in bound:
+        if isinstance(b, ast.Lambda):
+            arg_names |= names_in(b.body) - {x.arg for x in b.args.args}
+        else:
+            arg_names |= names_in(b)
+    same_name = {p for p, b in zip(g.params, bound) if isinstance(b, ast.Name) and b.id == p}     # `key=key`: nothing to bind
+    if (stored | (set(g.params) - same_name)) & (arg_names | set(f.params)):
+        return f                     # a local of g would capture a name of the caller
+    lambdas = {p: b for p, b in zip(g.params, bound) if isinstance(b, ast.Lambda)}
+    for p, b in zip(g.params, bound):
+        # a bound method handed over as callback (`self.remove`) reads like `lambda *a: self.remove(*a)`
+        if isinstance(b, ast.Attribute) and isinstance(b.value, ast.Name) and b.value.id == f.self_name and \
+                f.cls and prog.find_method(f.cls, unmangle(b.attr)) is not None:
+            m = prog.find_method(f.cls, unmangle(b.attr))
+            n_args = len(m.params) - (1 if m.kind in ('method', 'classmethod') else 0)
+            la = ast.arguments(posonlyargs=[], args=[ast.arg(arg=f'_a{i}') for i in range(n_args)], vararg=None, kwonlyargs=[],
+                               kw_defaults=[], kwarg=None, defaults=[])
+            lambdas[p] = ast.Lambda(args=la, body=ast.Call(func=copy.deepcopy(b), args=[ast.Name(id=f'_a{i}', ctx=ast.Load())
+                                                                                       for i in range(n_args)], keywords=[]))
+    for lam in lambdas.values():
+        la = lam.args
+        if la.vararg or la.kwarg or la.kwonlyargs or la.defaults or la.posonlyargs:
+            return f
+    if stored & set(g.params):
+        return f                     # parameter reassigned in g
+    body = [copy.deepcopy(st) for st in g.node.body]
+    ok = [True]
+
+    class Beta(ast.NodeTransformer):
+        def visit_Call(self, node):
+            if isinstance(node.func, ast.Name) and node.func.id in lambdas:
+                lam = lambdas[node.func.id]
+                args = [self.visit(x) for x in node.args]
+                if node.keywords or len(args) != len(lam.args.args) or any(isinstance(x, ast.Starred) for x in args):
+                    ok[0] = False
+                    return node
+                return ast.copy_location(subst(lam.body, {p.arg: v for p, v in zip(lam.args.args, args)}), node)
+            return self.generic_visit(node)
+
+        def visit_Name(self, node):
+            if node.id in lambdas:
+                ok[0] = False        # the callback escapes (passed on, stored): not modelled
+            return node
+
+    body = [Beta().visit(st) for st in body]
+    if not ok[0]:
+        return f
+    prefix = []
+    for p, b in zip(g.params, bound):
+        if p in lambdas or p in same_name:
+            continue
+        asg = ast.Assign(targets=[ast.Name(id=p, ctx=ast.Store())], value=copy.deepcopy(b))
+        prefix.append(ast.copy_location(asg, stmts[0]))
+    new = copy.copy(f.node)
+    new.body = prefix + body
+    ast.fix_missing_locations(new)
+    return Func(qual=f.qual + '+' + g.name, name=f.name, node=new, module=f.module, cls=f.cls, kind=f.kind, parent=f.parent, prop=f.prop)
 
 
 RESOLVER_ANCHOR = 'task._ImmutableTaskList.__get_task_attribute'
@@ -1621,8 +1734,46 @@ def _remove_all(ctx):
                "remove_all (task list and WBS): the matches are self(key, **kwargs) / self.tasks(key, **kwargs); every match is "
                "removed unconditionally; every return yields the whole match list; WBS.__remove walks the whole tree", floor=9)
 
+    walkers = []        # [function, task parameter, current-node parameter, 'single' | 'bulk', element kind, call] found in WBS.remove_all
+
+    def callee_of(f, n: ast.Call):
+        """package function a call resolves to by name: self.<method>, <Class>.<method>, module-level / imported function"""
+        fn = n.func
+        if isinstance(fn, ast.Attribute) and isinstance(fn.value, ast.Name):
+            if f.cls and f.self_name and fn.value.id == f.self_name:
+                return prog.find_method(f.cls, unmangle(fn.attr))
+            if fn.value.id in prog.classes:
+                return prog.find_method(fn.value.id, unmangle(fn.attr))
+            return None
+        if isinstance(fn, ast.Name):
+            g = prog.module_func(f.module.name, fn.id)
+            if g is None and fn.id in f.module.imports:
+                origin = prog.resolve_import(f.module, fn.id)
+                g = prog.funcs.get(origin) if origin else None
+            return g
+        return None
+
+    def own_params(g):
+        return g.params[1:] if g.kind in ('method', 'classmethod') else g.params
+
+    def walker_call(f, n, SELF, ex, cfg):
+        """n is `<walker>(<task or tasks>, <the hidden root>)` (either order) -> (walker, task argument, task param, root param)"""
+        g = callee_of(f, n)
+        if g is None or g.name == 'remove' or len(own_params(g)) != 2 or not isinstance(g.node, ast.FunctionDef):
+            return None
+        cargs = facts.bound_args(n, g)
+        if len(cargs) != 2 or any(x is None for x in cargs):
+            return None
+        cn = cfg.node_containing(n)
+        roots = [i for i, x in enumerate(cargs) if match(f"{SELF}._WBS__root", ex.expand(x, cn) if cn is not None else x)]
+        if len(roots) != 1:
+            return None
+        r = roots[0]
+        pp = own_params(g)
+        return g, cargs[1 - r], pp[1 - r], pp[r]
+
     def variant(o, qual, wbs: bool):
-        f = prog.func(qual)
+        f = _delegated_body(prog, prog.func(qual))
         a = f.node.args
         pos = [x.arg for x in a.args]
         if len(pos) < 2 or a.kwarg is None:
@@ -1631,6 +1782,20 @@ def _remove_all(ctx):
         SELF, KEY, KW = pos[0], pos[1], a.kwarg.arg
         cfg = cfg_of(f)
         ex = Expander(prog, f, ctx.typer, inline=False)
+        def alias(e):
+            """a local bound once to `self` / `self.tasks` (the Expander keeps such a name when mutating methods are called
+            through it) -> what it stands for"""
+            from sa.flow import flow_of
+            for _ in range(3):
+                if not (isinstance(e, ast.Name) and e.id not in f.params):
+                    break
+                defs = flow_of(f).defs_of(e.id)
+                if len(defs) == 1 and defs[0].kind == 'assign' and isinstance(defs[0].value, (ast.Name, ast.Attribute)):
+                    e = defs[0].value
+                else:
+                    break
+            return e
+
         # ---- the query
         qcalls = [ci for ci in ctx.cg.calls_in(f) if ci.kind == 'call' and isinstance(ci.node, ast.Call) and
                   any(t is not None and t.qual == 'task._ImmutableTaskList.__call__' for t in ci.targets)]
@@ -1642,6 +1807,7 @@ def _remove_all(ctx):
             return
         q = qcalls[0].node
         recv = q.func.value if isinstance(q.func, ast.Attribute) and q.func.attr == '__call__' else q.func
+        recv = alias(ex.expand(recv, cfg.node_containing(q)) if cfg.node_containing(q) is not None else recv)
         if wbs:
             if match(f"{SELF}.tasks", recv):
                 g = prog.func('wbs.WBS.tasks')
@@ -1671,6 +1837,7 @@ def _remove_all(ctx):
         if karg is None or not (isinstance(ex.expand(karg), ast.Name) and ex.expand(karg).id == KEY) or len(kpos) > 1:
             o.refute(f, q, q, f"`{src(q)}` does not pass the caller's `{KEY}` to the query: tasks the predicate rejects are removed too")
             return
+        kstar = [ex.expand(x, cfg.node_containing(q)) if cfg.node_containing(q) is not None else x for x in kstar]
         if len(kstar) != 1 or not (isinstance(kstar[0], ast.Name) and kstar[0].id == KW) or set(knamed) - {'key'}:
             o.refute(f, q, q, f"`{src(q)}` does not pass the caller's keyword filters `**{KW}` to the query: tasks the filters reject are "
                               f"removed too")
@@ -1696,28 +1863,90 @@ def _remove_all(ctx):
             left = R().visit(copy.deepcopy(t))
             return not (names_in(left) - {'len', 'bool'})
 
+        def bulk_argument(a0, c):
+            """argument holding all matches: {id(t) for t in M} / [t for t in M] / set(M) / M -> ('ok', 'id'|'obj') | ('bad', msg)"""
+            v = ex.expand(a0, cfg.node_containing(c))
+            while isinstance(v, ast.Call) and isinstance(v.func, ast.Name) and v.func.id in ('set', 'frozenset', 'list', 'tuple') \
+                    and len(v.args) == 1 and not v.keywords and isinstance(v.args[0], (ast.GeneratorExp, ast.ListComp, ast.SetComp)):
+                v = v.args[0]
+            if isinstance(v, (ast.GeneratorExp, ast.ListComp, ast.SetComp)) and len(v.generators) == 1 \
+                    and isinstance(v.generators[0].target, ast.Name):
+                gen = v.generators[0]
+                tn = gen.target.id
+                if match(f"id({tn})", v.elt):
+                    kind = 'id'
+                elif match(tn, v.elt):
+                    kind = 'obj'
+                else:
+                    return None
+                w = _whole(gen.iter, is_match)
+                if w is None:
+                    return None
+                if w != 'whole' and w[0] == 'filtered':
+                    return ('bad', f"not every match is removed: {w[1]}")
+                if gen.ifs:
+                    return ('bad', "not every match is removed: comprehension filter `" + ' and '.join(src(x) for x in gen.ifs) + "`")
+                return ('ok', kind)
+            w = _whole(v, is_match)
+            if w == 'whole':
+                return ('ok', 'obj')
+            if isinstance(w, tuple) and w[0] == 'filtered':
+                return ('bad', f"not every match is removed: {w[1]}")
+            return None
+
         # ---- the removals
-        rem = []
+        # list variant: self.remove(t).  WBS variant: self.remove(t), or a tree walker - any package function / method of the
+        # class with two parameters that is called with the hidden root and (a) one match or (b) the collection of all matches
+        rem = []            # (call, task argument)
         for n in walk_no_nested(f.node):
-            if isinstance(n, ast.Call) and isinstance(n.func, ast.Attribute) and isinstance(n.func.value, ast.Name) \
-                    and n.func.value.id == SELF and unmangle(n.func.attr) in (('remove', '__remove') if wbs else ('remove',)):
-                rem.append(n)
-        if not rem:
-            o.refute(f, f.node, 'removal', "no matching task is removed: the call of `remove` for every match is missing")
-            return
-        for c in rem:
-            if wbs and unmangle(c.func.attr) == '__remove':
-                cargs = facts.bound_args(c, prog.func('wbs.WBS.__remove'))
-            else:
-                cargs = list(c.args) + [k.value for k in c.keywords if k.arg == 'task']
-            if not cargs or not isinstance(cargs[0], ast.Name):
-                o.undecided(f, c, c, "removal call without a plain task variable")
+            if not isinstance(n, ast.Call):
                 continue
-            var = cargs[0].id
-            if wbs and unmangle(c.func.attr) == '__remove':
-                if len(cargs) != 2 or cargs[1] is None or not match(f"{SELF}._WBS__root", ex.expand(cargs[1])):
-                    o.undecided(f, c, c, "the tree walk does not start at the root of the WBS")
+            if isinstance(n.func, ast.Attribute) and isinstance(n.func.value, ast.Name) and match(SELF, alias(n.func.value)) \
+                    and n.func.attr == 'remove':
+                a0 = (list(n.args) + [k.value for k in n.keywords if k.arg == 'task'] + [None])[0]
+                rem.append((n, a0))
+                continue
+            if wbs and n is not q:
+                wk = walker_call(f, n, SELF, ex, cfg)
+                if wk is not None:
+                    g, t_arg, t_par, c_par = wk
+                    rem.append((n, t_arg))
+                    walkers.append([g, t_par, c_par, 'single', None, n])
+        if not rem:
+            others = [n for n in walk_no_nested(f.node) if isinstance(n, ast.Call) and n is not q and not (
+                isinstance(n.func, ast.Name) and n.func.id in ('_ImmutableTaskList', 'len', 'bool', 'list', 'tuple', 'set', 'id', 'iter'))
+                and not (isinstance(n.func, ast.Attribute) and isinstance(n.func.value, ast.Name) and 'log' in n.func.value.id.lower())
+                and n is not recv]
+            if others:
+                o.undecided(f, others[0], 'removal', f"no `remove` call per match in {f.qual}; the removal may be done by `{src(others[0])[:80]}`, "
+                                                     f"which this rule does not follow")
+            else:
+                o.refute(f, f.node, 'removal', "no matching task is removed: the call of `remove` for every match is missing")
+            return
+        for c, a0 in rem:
+            if not isinstance(a0, ast.Name):
+                # (b) one call for all matches: the argument must hold every match
+                wk = [w for w in walkers if w[5] is c]
+                kind = bulk_argument(a0, c) if wk and a0 is not None else None
+                if kind is None:
+                    if wk:
+                        wk[0][3] = 'skip'
+                    o.undecided(f, c, c, "removal call without a plain task variable")
                     continue
+                wk[0][3] = 'bulk'
+                if kind[0] == 'bad':
+                    wk[0][3] = 'skip'         # one finding is enough: the walker is not judged against a wrong argument
+                    o.refute(f, c, a0, kind[1])
+                    continue
+                extra = [(t, p) for t, p in facts.node_conditions(prog, f, c, ctx.typer) if not only_about_match(t)]
+                if extra:
+                    o.undecided(f, c, c, "the removal is executed under a condition the rule does not understand (" +
+                                ', '.join(facts.cond_texts(extra)) + ")")
+                    continue
+                wk[0][3], wk[0][4] = 'bulk', kind[1]
+                o.site(f, c, f"{src(c)}: all matches handed to the tree walk at once")
+                continue
+            var = a0.id
             cn = cfg.node_containing(c)
             binder_iter = None
             comp = _enclosing_comp(f, c, var)
@@ -1816,21 +2045,166 @@ def _remove_all(ctx):
             # one site per function (not per return statement: merging the two returns is behaviour preserving)
             o.site(f, rets[-1], f"all {len(rets)} return(s) yield the match list (an empty list only when nothing matched)")
 
-    def tree_walk(o):
-        f0 = prog.func('wbs.WBS.__remove')
-        if len(f0.params) != 3:
-            o.undecided(f0, f0.node, '__remove signature', "unexpected signature")
+    def bulk_walk(o, f, DOOMED, CUR, kind):
+        """single-walk removal `prune(doomed, current)`: drops the doomed tasks from current's children and must then visit EVERY
+        remaining child subtree - the matches are spread over the tree, so a walk that stops after the first subtree that
+        reported a removal (`any(<generator>)`, `return` / `break` in the loop, `removed or ..`) leaves matches behind"""
+        cfg = cfg_of(f)
+        ex = Expander(prog, f, ctx.typer, inline=False)
+
+        def is_children(e):
+            return bool(match(f"{CUR}.children", e) or match(f"{CUR}._Task__children", e))
+
+        def doomed_test(t, child):
+            """`id(child) in DOOMED` / `child in DOOMED` -> (positive?, 'id' | 'obj') else None"""
+            if isinstance(t, ast.UnaryOp) and isinstance(t.op, ast.Not):
+                r = doomed_test(t.operand, child)
+                return (not r[0], r[1]) if r else None
+            if isinstance(t, ast.Compare) and len(t.ops) == 1 and isinstance(t.ops[0], (ast.In, ast.NotIn)) \
+                    and match(DOOMED, t.comparators[0]):
+                k = 'id' if match(f"id({child})", t.left) else ('obj' if match(child, t.left) else None)
+                if k:
+                    return (isinstance(t.ops[0], ast.In), k)
+            return None
+
+        # ---- the removal at the current node:  current.children = [ch for ch in current.children if id(ch) not in doomed]
+        kept_forms = []
+        done = False
+        for node, tgt, val in facts.attr_stores(f, 'children'):
+            if not (isinstance(tgt.value, ast.Name) and tgt.value.id == CUR) or val is None:
+                continue
+            v = ex.expand(val, cfg.node_of(node))
+            parts = facts.comp_parts(v) if isinstance(v, (ast.ListComp, ast.GeneratorExp)) else None
+            if not parts or not isinstance(parts[1], ast.Name) or not match(parts[1].id, parts[0]) or \
+                    _whole(parts[2], is_children, True) != 'whole' or len(parts[3]) != 1:
+                o.undecided(f, node, val, f"`{src(node)[:90]}` is not `{CUR}.children = [ch for ch in {CUR}.children if <ch not doomed>]`")
+                return
+            dt = doomed_test(parts[3][0], parts[1].id)
+            if dt is None:
+                o.undecided(f, node, parts[3][0], f"filter `{src(parts[3][0])}` is not a membership test against `{DOOMED}`")
+                return
+            if dt[1] != kind:
+                o.undecided(f, node, parts[3][0], f"`{src(parts[3][0])}` tests {'object ids' if dt[1] == 'id' else 'tasks'} but remove_all "
+                                                  f"hands over {'object ids' if kind == 'id' else 'tasks'}")
+                return
+            if dt[0]:
+                o.refute(f, node, parts[3][0], f"`{src(node)[:90]}` keeps exactly the tasks to remove (`{src(parts[3][0])}`)")
+                return
+            kept_forms.append(v)
+            o.site(f, node, f"{CUR}.children = the children not in {DOOMED}")
+            done = True
+        if not done:
+            o.undecided(f, f.node, 'children rebuild', f"{f.qual} does not rebuild `{CUR}.children` without the tasks in `{DOOMED}`")
             return
-        # (function, name of its task parameter, name of its current-node parameter); `__remove` may hand the walk over to a
-        # private helper of the same class (`return self.__remove_below(task, current)` after the None pre-check)
-        chain = [(f0, f0.params[1], f0.params[2])]
+        # ---- the descent
+        rec = []
+        for n in walk_no_nested(f.node):
+            if isinstance(n, ast.Call) and callee_of(f, n) is not None and callee_of(f, n).qual == f.qual:
+                rec.append(n)
+        if not rec:
+            o.refute(f, f.node, 'recursion', "the tree walk does not descend into the children: only root tasks can be removed")
+            return
+        pp = own_params(f)
+        for c in rec:
+            cn = cfg.node_containing(c)
+            cargs = facts.bound_args(c, f)
+            a_d = cargs[pp.index(DOOMED)] if len(cargs) == 2 else None
+            a_c = cargs[pp.index(CUR)] if len(cargs) == 2 else None
+            if a_d is None or not match(DOOMED, a_d) or not isinstance(a_c, ast.Name) or cn is None:
+                o.undecided(f, c, c, "recursive call in an unexpected shape")
+                continue
+            child = a_c.id
+            comp = _enclosing_comp(f, c, child)
+            fo = _enclosing_for(f, c, child)
+            if comp is not None:
+                gen = next(x for x in comp.generators if isinstance(x.target, ast.Name) and x.target.id == child)
+                it, filt, loop_node = ex.expand(gen.iter, cn), list(gen.ifs), comp
+            elif fo is not None:
+                it, filt, loop_node = ex.expand(fo.iter, cfg.node_of(fo)), [], fo
+            else:
+                o.undecided(f, c, c, "recursive call not inside a loop / comprehension over the children")
+                continue
+            if not any(same(it, k) for k in kept_forms):
+                w = _whole(it, is_children)
+                if w is None:
+                    o.undecided(f, loop_node, it, "the walk does not iterate the (remaining) children of the current node")
+                    continue
+                if w != 'whole':
+                    o.refute(f, loop_node, it, f"the tree walk skips subtrees: {w[1]}")
+                    continue
+            if filt:
+                o.refute(f, loop_node, it, "the tree walk skips subtrees: comprehension filter `" + ' and '.join(src(x) for x in filt) + "`")
+                continue
+            # every subtree must be visited: no short circuit around the recursive call
+            stmt = cn.ast
+            parents = {}
+            for pnode in ast.walk(stmt):
+                for ch in ast.iter_child_nodes(pnode):
+                    parents[id(ch)] = pnode
+            cut = None
+            x = c
+            while id(x) in parents and cut is None:
+                par = parents[id(x)]
+                if isinstance(par, ast.Call) and isinstance(par.func, ast.Name) and par.func.id in ('any', 'all', 'next') \
+                        and isinstance(x, ast.GeneratorExp):
+                    cut = (par, f"`{par.func.id}(<generator>)` stops at the first subtree that reports a removal")
+                elif isinstance(par, ast.BoolOp) and par.values[0] is not x and not isinstance(par.values[0], ast.Constant):
+                    cut = (par, f"`{src(par)[:80]}` evaluates the descent only when the left operand does not decide the result")
+                elif isinstance(par, ast.IfExp) and par.test is not x:
+                    cut = (par, f"`{src(par)[:80]}` evaluates the descent on one side only")
+                x = par
+            if cut is None and fo is not None and comp is None:
+                exits = _loop_exits(fo)
+                if exits:
+                    cut = (exits[0], f"`{src(exits[0])}` inside the loop over the children stops the walk early")
+            if cut is not None:
+                o.refute(f, cut[0], cut[0], f"{cut[1]}: the remaining sibling subtrees are never walked, so matching tasks nested there stay in "
+                                            f"the WBS although remove_all returns them (all matches are removed in ONE walk here)")
+                continue
+            extra = [(t, p) for t, p in facts.node_conditions(prog, f, c, ctx.typer)]
+            if extra:
+                o.undecided(f, c, c, "the descent is conditional: " + ', '.join(facts.cond_texts(extra)))
+                continue
+            o.site(f, c, f"{src(c)} for every remaining child")
+
+    def tree_walk(o):
+        start = None
+        if walkers:
+            if len({w[0].qual for w in walkers}) > 1:
+                o.undecided(walkers[1][0], walkers[1][5], walkers[1][5], "WBS.remove_all uses more than one tree walker")
+                return
+            start = walkers[0]
+        elif prog.has_func('wbs.WBS.__remove'):
+            f0 = prog.func('wbs.WBS.__remove')
+            if len(f0.params) != 3:
+                o.undecided(f0, f0.node, '__remove signature', "unexpected signature")
+                return
+            start = [f0, f0.params[1], f0.params[2], 'single', None, None]
+        else:
+            # remove_all goes through the public WBS.remove: the walker is what that one calls with the root
+            r = prog.func('wbs.WBS.remove')
+            exr, cfr = Expander(prog, r, ctx.typer, inline=False), cfg_of(r)
+            for n in walk_no_nested(r.node):
+                wk = walker_call(r, n, r.params[0], exr, cfr) if isinstance(n, ast.Call) else None
+                if wk is not None and isinstance(wk[1], ast.Name):
+                    start = [wk[0], wk[2], wk[3], 'single', None, n]
+            if start is None:
+                prog.func('wbs.WBS.__remove')       # AnchorMissing -> exit 2
+        if start[3] == 'skip':
+            return
+        if start[3] == 'bulk':
+            bulk_walk(o, start[0], start[1], start[2], start[4])
+            return
+        # (function, name of its task parameter, name of its current-node parameter); the walker may hand the walk over to a
+        # private helper (`return self.__remove_below(task, current)` after the None pre-check)
+        chain = [(start[0], start[1], start[2])]
 
         def self_calls(f):
-            """calls `self.<method of the same class>(..)` in f -> [(call, callee)]"""
+            """calls of package functions by name in f -> [(call, callee)]"""
             out = []
             for n in walk_no_nested(f.node):
-                if isinstance(n, ast.Call) and isinstance(n.func, ast.Attribute) and match(f.params[0], n.func.value):
-                    g = prog.find_method(f.cls, unmangle(n.func.attr)) if f.cls else None
+                if isinstance(n, ast.Call):
+                    g = callee_of(f, n)
                     if g is not None:
                         out.append((n, g))
             return out
@@ -1843,7 +2217,7 @@ def _remove_all(ctx):
                 break
             cands = []
             for c, g in calls:
-                if len(g.params) != 3:
+                if len(own_params(g)) != 2:
                     continue
                 cargs = facts.bound_args(c, g)
                 if len(cargs) == 2 and all(isinstance(x, ast.Name) for x in cargs) and {cargs[0].id, cargs[1].id} == {TASK, CUR}:
@@ -1855,11 +2229,10 @@ def _remove_all(ctx):
             if bad:
                 o.undecided(f, c, c, f"the walk is handed to {g.qual} only under a condition: " + ', '.join(facts.cond_texts(bad)))
                 return
-            gp = g.params[1:]
+            gp = own_params(g)
             chain.append((g, gp[0] if cargs[0].id == TASK else gp[1], gp[1] if cargs[1].id == CUR else gp[0]))
 
         f, TASK, CUR = chain[-1]
-        SELF = f.params[0]
         cfg = cfg_of(f)
         ex = Expander(prog, f, ctx.typer, inline=False)
         by_name = {x[0].name: x for x in chain}
@@ -1904,7 +2277,7 @@ def _remove_all(ctx):
         for c, (callee, c_task, c_cur) in rec:
             cn = cfg.node_containing(c)
             cargs = facts.bound_args(c, callee)
-            cp = callee.params[1:]
+            cp = own_params(callee)
             a_task = cargs[cp.index(c_task)] if len(cargs) == 2 else None
             a_cur = cargs[cp.index(c_cur)] if len(cargs) == 2 else None
             if a_task is None or not match(TASK, a_task) or not isinstance(a_cur, ast.Name) or cn is None:
